@@ -294,17 +294,25 @@ def helper_lambda(params: List[str], body_src: str) -> ast.Lambda:
     return ast.parse("lambda %s: %s" % (", ".join(params), body_src), mode="eval").body
 
 
-def capval_sx(v: Var, val: Any) -> Optional[str]:
-    """(V const) / (F expr) / (F -); None when the model's domain is left (non-plain helper lambda)."""
+class OutsideDomain(Exception):
+    """the model's domain is left (a lambda with non-positional parameter kinds)"""
+
+
+def capval_sx(v: Var, val: Any, case=None, rec=None, mod=None, expanding=()) -> str:
+    """(V const) / (F expr) / (F -) / (H <helper's own snapshot> <helper lambda>)"""
     if isinstance(val, type) or isinstance(val, types.ModuleType):
         return "(V %s)" % bridge.const_sx(val)
     if not callable(val):
         return "(V %s)" % bridge.const_sx(val)
     if v.helper is not None:
+        if any(val is f for f in expanding):
+            return "(F -)"                      # FC5's recursion guard: a helper being expanded stays by name
         lam = helper_lambda(*v.helper)
         if not plain_tree(lam):
-            return None
-        return "(F %s)" % bridge.to_sx(lam)
+            raise OutsideDomain()
+        # FC5: the helper's lambda is rewritten with the helper's own snapshot (one model step per helper)
+        hce = build_cenv(lam, val, case, rec, mod, v.scope, expanding + (val,))
+        return "(H %s %s)" % (hce, bridge.to_sx(lam))
     if v.lam_helper:
         # whether the source of a lambda bound to a name can be recovered is source recovery's business (C03):
         # an input of the model, taken from the implementation's own recovery function
@@ -316,9 +324,59 @@ def capval_sx(v: Var, val: Any) -> Optional[str]:
         if lm is None:
             return "(F -)"
         if not plain_tree(lm):
-            return None
-        return "(F %s)" % bridge.to_sx(lm)
+            raise OutsideDomain()
+        hce = build_cenv(lm, val, case, rec, mod, v.scope, expanding + (val,))
+        return "(H %s %s)" % (hce, bridge.to_sx(lm))
     return "(F -)"
+
+
+def build_cenv(lam: ast.AST, fobj, case, rec, mod, scope: str, expanding=()) -> str:
+    """The snapshot global_getclosurevars(fobj) yields for the names of `lam`, by construction of the case.
+    scope: where fobj was defined ('g' = module level: no closure; 'lK' = inside the enclosing function at depth K,
+    'inner' = the passed lambda itself, which sees every level)."""
+    import inspect
+
+    names = {n.id for n in ast.walk(lam) if isinstance(n, ast.Name)}
+    attrs = sorted({n.attr for n in ast.walk(lam) if isinstance(n, ast.Attribute)})
+    nl, gl, objs = [], [], []
+    # innermost visible local binding of a name wins (Python's scoping)
+    best: Dict[str, Var] = {}
+    for v in case.vars:
+        if v.scope.startswith("l") and v.name in names and scope != "g" and (scope == "inner" or v.scope <= scope):
+            if v.name not in best or v.scope > best[v.name].scope:
+                best[v.name] = v
+    # Which enclosing-function names CPython reports as closure cells of the callable is the declared input of the
+    # model (inspect.getclosurevars); the values are the generator's.  (CPython 3.12.1 drops a cell when the same
+    # name is also the target of an inlined comprehension in the lambda - python itself then raises NameError.)
+    try:
+        reported = inspect.getclosurevars(fobj).nonlocals if fobj is not None else {}
+    except Exception:  # noqa
+        reported = {}
+    for n, v in sorted(best.items()):
+        if n not in rec.locals:
+            continue
+        if n not in reported:
+            rec.unreported.append(n)
+            continue
+        if reported[n] is not rec.locals[n] and reported[n] != rec.locals[n]:
+            raise RuntimeError("closure cell %s holds %r, the generator expected %r" % (n, reported[n], rec.locals[n]))
+        nl.append("(%s %s)" % (bridge.hx(n), capval_sx(v, rec.locals[n], case, rec, mod, expanding)))
+        objs.append(rec.locals[n])
+    for v in case.vars:
+        if v.scope == "g" and v.name in names and v.name in rec.globals_before:
+            gl.append("(%s %s)" % (bridge.hx(v.name), capval_sx(v, rec.globals_before[v.name], case, rec, mod, expanding)))
+            objs.append(rec.globals_before[v.name])
+    # modules imported by the generated file are module globals too
+    for n in ("math", "enum", "dataclasses", "collections", "types"):
+        if n in names and n not in {v.name for v in case.vars}:
+            gl.append("(%s (V %s))" % (bridge.hx(n), bridge.const_sx(sys.modules[n])))
+            objs.append(sys.modules[n])
+    # literal constants written in the lambda can be attribute receivers as well
+    for c in ast.walk(lam):
+        if isinstance(c, ast.Constant):
+            objs.append(c.value)
+    at = attr_table(objs, attrs, mod)
+    return "((%s) (%s) (%s))" % (" ".join(nl), " ".join(gl), " ".join(at))
 
 
 def attr_table(objs: List[Any], attrs: List[str], mod) -> List[str]:
@@ -369,51 +427,10 @@ def model_input(case: Case, rec: Recorder, mod) -> Optional[Tuple[str, str]]:
     lam = ast.parse(case.lam, mode="eval").body
     if not plain_tree(lam):
         return None
-    names = {n.id for n in ast.walk(lam) if isinstance(n, ast.Name)}
-    attrs = sorted({n.attr for n in ast.walk(lam) if isinstance(n, ast.Attribute)})
-    nl, gl, objs = [], [], []
-    # innermost local binding of a name wins (Python's scoping), by construction of the case
-    best: Dict[str, Var] = {}
-    for v in case.vars:
-        if v.scope.startswith("l") and v.name in names:
-            if v.name not in best or v.scope > best[v.name].scope:
-                best[v.name] = v
-    # Which enclosing-function names CPython reports as closure cells of the callable is the declared input of the
-    # model (inspect.getclosurevars); the values are the generator's.  (CPython 3.12.1 drops a cell when the same
-    # name is also the target of an inlined comprehension in the lambda - python itself then raises NameError.)
-    import inspect
-    reported = inspect.getclosurevars(rec.f).nonlocals if rec.f is not None else {}
-    for n, v in sorted(best.items()):
-        if n not in rec.locals:
-            continue
-        if n not in reported:
-            rec.unreported.append(n)
-            continue
-        if reported[n] is not rec.locals[n] and reported[n] != rec.locals[n]:
-            raise RuntimeError("closure cell %s holds %r, the generator expected %r" % (n, reported[n], rec.locals[n]))
-        cv = capval_sx(v, rec.locals[n])
-        if cv is None:
-            return None
-        nl.append("(%s %s)" % (bridge.hx(n), cv))
-        objs.append(rec.locals[n])
-    for v in case.vars:
-        if v.scope == "g" and v.name in names and v.name in rec.globals_before:
-            cv = capval_sx(v, rec.globals_before[v.name])
-            if cv is None:
-                return None
-            gl.append("(%s %s)" % (bridge.hx(v.name), cv))
-            objs.append(rec.globals_before[v.name])
-    # modules imported by the generated file are module globals too
-    for n in ("math", "enum", "dataclasses", "collections", "types"):
-        if n in names and n not in {v.name for v in case.vars}:
-            gl.append("(%s (V %s))" % (bridge.hx(n), bridge.const_sx(sys.modules[n])))
-            objs.append(sys.modules[n])
-    # literal constants written in the lambda can be attribute receivers as well
-    for c in ast.walk(lam):
-        if isinstance(c, ast.Constant):
-            objs.append(c.value)
-    at = attr_table(objs, attrs, mod)
-    ce = "((%s) (%s) (%s))" % (" ".join(nl), " ".join(gl), " ".join(at))
+    try:
+        ce = build_cenv(lam, rec.f, case, rec, mod, "inner")
+    except OutsideDomain:
+        return None
     return ce, bridge.to_sx(lam)
 
 
@@ -491,39 +508,9 @@ def same_value(a, b) -> bool:
 
 # ---------------------------------------------------------------- one case through everything
 
-_reported_known = set()
-
-
-def _binders(n) -> set:
-    out = set()
-    for x in ast.walk(n):
-        if isinstance(x, ast.Lambda):
-            out |= {a.arg for a in x.args.args}
-        if isinstance(x, ast.comprehension):
-            out |= {m.id for m in ast.walk(x.target) if isinstance(m, ast.Name)}
-    return out
-
-
-def _called_lambda_capture_risk(lam_src: str) -> bool:
-    """A literal called lambda whose argument mentions a name that a binder inside its body binds: the same open
-    finding of _resolve_called_lambdas as for helpers (over-approximation; only consulted when the oracle failed)."""
-    t = ast.parse(lam_src, mode="eval")
-    for c in ast.walk(t):
-        if isinstance(c, ast.Call) and isinstance(c.func, ast.Lambda):
-            used = {n.id for a in c.args for n in ast.walk(a) if isinstance(n, ast.Name)}
-            if used & _binders(c.func.body):
-                return True
-    return False
-
-
-def classify_known(case: Case) -> Optional[str]:
-    """Open findings of C05 that the proposed fixes deliberately leave (see report): argument names captured by a
-    binder that stays inside the helper body; free names of a helper body captured by the passed lambda."""
-    if "inner-binder-captures-argument" in case.tags or _called_lambda_capture_risk(case.lam):
-        return "C05-open-argument-captured-by-inner-binder"
-    if "helper-free-name" in case.tags:
-        return "C05-open-helper-free-name-captured"
-    return None
+# Open findings are matched by the exact text of the generated program, never by class.  None at present.
+OPEN_WITNESSES: Dict[str, str] = {}
+_reported_open = set()
 
 
 def check_case(ctx, prop: str, case: Case, data, pending: list, extra_oracle=None):
@@ -582,14 +569,13 @@ def check_case(ctx, prop: str, case: Case, data, pending: list, extra_oracle=Non
         if msg:
             oracle_ok, why = False, msg
     if not oracle_ok:
-        known = classify_known(case)
-        if known is not None:
-            # open findings of this work package (exact witnesses in corpus/capture_open_findings.json); they are
-            # reported as KNOWN-FINDING lines and do not fail the check
-            ctx.count("open_finding", known)
-            if known not in _reported_known:
-                _reported_known.add(known)
-                print("KNOWN-FINDING: property=%s %s: `%s` -> %s" % (prop, known, case.lam, why[:300]))
+        wkey = OPEN_WITNESSES.get(case.source())
+        if wkey is not None:
+            # an open finding, matched by its exact program text (see OPEN_WITNESSES)
+            ctx.count("open_finding", wkey)
+            if wkey not in _reported_open:
+                _reported_open.add(wkey)
+                print("KNOWN-FINDING: property=%s %s: `%s` -> %s" % (prop, wkey, case.lam, why[:300]))
         else:
             ctx.fail("failing-input", "%s: `%s` -> %s" % (prop, case.lam, why), w, key=case.key())
     mi = rec.mi
